@@ -349,12 +349,11 @@ def family(noise=1.0, geom=0):
     n = base2d()
     for c in n.clusters: c.orientation_auto = "gon"          # unit of every other angle of the input
     add("obs.orientation-gon", n, axes=("ne", "nw"))
+    # (the members obs.orientation-rad / -rad-rough, which gave the value in radians as
+    #  GKFparser::process_obs used to store it, were dropped when the unit was repaired in /repo)
     n = base2d()
-    for c in n.clusters: c.orientation_auto = "rad"          # what GKFparser::process_obs stores
-    add("obs.orientation-rad", n, axes=("ne", "nw"))
-    n = base2d()
-    for c in n.clusters: c.orientation_auto = "rad-rough"    # 0.004 rad off: a poor approximate value
-    add("obs.orientation-rad-rough", n, axes=("ne", "nw"))
+    for c in n.clusters: c.orientation_auto = "gon-rough"    # 0.25 gon off: a poor approximate value
+    add("obs.orientation-gon-rough", n, axes=("ne", "nw"))
     n = base2d()
     ren = {"P": "P&1", "Q": "Q\u00e9"}
     for p in n.points: p.id = ren.get(p.id, p.id)
@@ -423,7 +422,7 @@ def realise(member, axes="ne", angles="left-handed", approx="exact"):
             oa = getattr(c, "orientation_auto", None)
             if oa and c.frm is not None:
                 ori = c.zero if not rh else gnet.norm400(-c.zero)
-                if oa.startswith("rad"): ori = ori * gnet.G2R + (0.004 if oa == "rad-rough" else 0.0)
+                if oa == "gon-rough": ori = gnet.norm400(ori + 0.25)
             if ori is not None: a += ' orientation="%s"' % fnum(ori, 10)
             if c.from_dh is not None: a += ' from_dh="%s"' % fnum(c.from_dh, 10)
             L.append("<obs%s>" % a)
